@@ -8,7 +8,7 @@ extent.  Constructors and factories are interpreted over the window of unsupport
 by the property."""
 import re
 from astdb import AnalysisBroken, sig
-from interp import (Interp, Obj, Cell, Thrown, Ptr, Region, Unsupported, OutOfBounds, Opaque, NULL, UNDEF)
+from interp import (AssertionAbort, Interp, Obj, Cell, Thrown, Ptr, Region, Unsupported, OutOfBounds, Opaque, NULL, UNDEF)
 from kernels import make_suv, SUV
 from poly import Poly, CPoly
 from gslmodel import GslHooks, IndexViolation
@@ -225,6 +225,8 @@ def run_pair(db, uname, f, kind, d1, d2):
     try:
         res = it.call(f, this, args)
     except Thrown as t:
+        if isinstance(t, AssertionAbort):
+            return 'abort', 'the mismatch is caught by an assert() only: the process is aborted instead of an exception being raised, and nothing is checked when NDEBUG is defined', unit.loc(t.node)
         if hooks.writes:
             return 'write', 'operand modified before the exception: %s' % hooks.writes[0], unit.loc(t.node)
         return 'throw', t.what, unit.loc(t.node)
@@ -324,7 +326,8 @@ def check_ctors(db, rep):
     verdict('SU_vector(unsigned,double*)', f, [('dimension %d' % d, (lambda d=d: run_ctor(db, f, Cell(Obj(SUV, None, 'v'), None, 0, 'v'), [d, Ptr(ext, 0)]))) for d in bad_dims])
     # make_aligned
     f = db.one('SUNalg', 'squids::SU_vector::make_aligned', 2)
-    verdict('make_aligned', f, [('dimension %d' % d, (lambda d=d: run_ctor(db, f, None, [d, 1]))) for d in bad_dims])
+    verdict('make_aligned', f, [('dimension %d, zero_fill=%s' % (d, 'true' if z else 'false'), (lambda d=d, z=z: run_ctor(db, f, None, [d, z])))
+                                for d in bad_dims for z in (1, 0)])
     # matrix constructor: non-square and unsupported sizes
     f = basis.f_matrix_ctor(db)
 
@@ -375,6 +378,7 @@ def check_supported_accepted(db, rep):
     for d in DIMS:
         for site, fn, this, args in (('SU_vector(unsigned)', f, Cell(Obj(SUV, None, 'v'), None, 0, 'v'), [d]),
                                      ('make_aligned', g, None, [d, 1]),
+                                     ('make_aligned(no fill)', g, None, [d, 0]),
                                      ('SU_vector(unsigned,double*)', h, Cell(Obj(SUV, None, 'v'), None, 0, 'v'), [d, Ptr(ext, 0)])):
             out, detail, where, hooks = run_ctor(db, fn, this, args)
             if out == 'nothrow':
